@@ -65,6 +65,13 @@ def generic_replay(r):
     3. the exported VC is re-decided by z3 4.8.12 and cvc5: none may answer `unsat`."""
     rp = r.get('replay') or {}
     why = []
+    if 'cli_mismatch' in rp:
+        from .cliagree import replay_mismatch
+        try:
+            still = replay_mismatch(rp['cli_mismatch'])
+        except Exception as e:
+            return False, 'CLI replay failed to run: %s' % e
+        return (True, 'the CLI differs from the library output again') if still else (False, 'CLI and library agree on replay')
     if 'request' in rp:
         try:
             got = fresh_bridge_call(parse(rp['request']))
